@@ -237,8 +237,9 @@ impl FieldModOperation for U256 {
         let mut r = self.clone();
         let mut c = 0;
         if r[0] & 0x01 == 1 {
-            r = self.fp_add(&SM2_P);
-            c = u64::from(u256_add(&self, &SM2_P).1)
+            let (sum, carry) = u256_add(self, &SM2_P);
+            r = sum;
+            c = u64::from(carry)
         } else {
             r[0] = self[0];
             r[1] = self[1];
